@@ -8,6 +8,37 @@ from ..extract import tcp as xtcp
 RCS = [0, 0, errno.EINPROGRESS, errno.EALREADY, errno.ECONNREFUSED, errno.EINVAL, errno.EISCONN, errno.ETIMEDOUT]
 
 
+def _cli_parts(case):
+    """("cli", tls, ops) | ("clit", tls, reconnectable, tymeout, ops) -> (tls, reconnectable, tymeout, ops)"""
+    if case[0] == "cli":
+        return (case[1], False, 0, case[2])
+    return (case[1], case[2], case[3], case[4])
+
+
+def _gen_cli_ops(rng, tls, tmo):
+    ops = []
+    since = 0
+    for _ in range(rng.randrange(1, 16)):
+        r = rng.random()
+        if r < 0.12:
+            ops.append(("reopen",))
+        elif r < 0.2:
+            ops.append(("close",))
+        elif r < 0.45 and tmo is not None:
+            d = max(0, tmo - since + rng.choice([-1, 0, 0, 1])) if (tmo and rng.random() < 0.6) else rng.choice([0, 1, 2, tmo or 3, 2 * (tmo or 1) + 1])
+            ops.append(("tick", d))
+            since = 0 if d >= (tmo or 0) else since + d
+        else:
+            hs = None
+            if tls and rng.random() < 0.8:
+                hs = rng.choice([("ok",), ("f", T.WANT_READ), ("f", T.WANT_READ), ("f", T.WANT_WRITE), ("f", rng.choice(T.conn_fault_codes("clienttls") + [errno.ECONNABORTED])),
+                                 ("f", rng.choice(T.ALL_CODES))])
+            ops.append(("connect", rng.choice(RCS), hs))
+    if rng.random() < 0.7:
+        ops.append(("close",))
+    return ops
+
+
 class C11(core.Check):
     pid = "C11"
     pkg = "Tcp"
@@ -17,15 +48,15 @@ class C11(core.Check):
                  "for every op history; differential run of the compiled model against the real classes on counting fake sockets; thorough adds real loopback sockets")
     level_text = ("Proved for every history of accept (incl. same-address replacement) / handshake progress-complete-abort / fault / transmit / removeIx / close / reopen / service "
                   "and every script: dropped_are_closed (a remoter the server no longer references has been closed), close_releases_all (after close no socket the server ever obtained is open, "
-                  "TLS handshakes pending included), reopen_releases_all, client_never_leaks (the client holds at most its current socket open), client_close_releases_all. "
+                  "TLS handshakes pending included), reopen_releases_all, client_never_leaks (for every reconnectable flag and tymeout and every history of reopen / close / virtual-tyme ticks / serviceConnect with any connect_ex result and handshake response — incl. the auto-reconnect retry tymer expiring before or after accept — the client holds at most its current socket open), client_close_releases_all. "
                   "The models are tied to the code by the correspondence run on fake sockets that record close(); real-socket run in thorough keeps every accepted socket object alive so GC cannot hide a leak.")
     level_note = ("Trusted: Lean kernel + standard axioms; translator (handshake outcome tables, loop handlers); the fake socket's close() bookkeeping; "
                   "removeIx(close=False) (a deliberate hand-over of the socket to the caller) is outside the modelled histories.")
     quick_n = 2000
     thorough_n = 20000
     rule = ("cases: (srv tls ops) with ops accept-peer(ca, scripts) / service / transmit / removeIx / close / reopen, 1-4 addresses, re-connections from an address already in the table "
-            "(also twice within one service pass), TLS handshakes left pending, aborted, completing late; always ends with close. (cli tls ops) reopen / close / serviceConnect with every connect_ex result and "
-            "handshake response. non-trivial = at least two sockets ever accepted and at least one of: a replacement, a pending/aborted handshake at close, a removal, a reopen; distinct by request line")
+            "(also twice within one service pass), TLS handshakes left pending, aborted, completing late; always ends with close. (cli/clit tls reconnectable tymeout ops) reopen / close / tick / serviceConnect with every connect_ex result (in progress, refused, accepted) and "
+            "handshake response, ticks biased to the retry deadline; (realcli ...) a reconnecting client on real sockets against a bound-not-listening port, a listener with a full accept queue, a listener that never handshakes. non-trivial = at least two sockets ever accepted and at least one of: a replacement, a pending/aborted handshake at close, a removal, a reopen; distinct by request line")
     trusted_base = ["correspondence harness/props/C11.py (compiled model vs real classes on counting fake sockets)", "translator harness/extract/tcp.py",
                     "fake socket harness/areas/tcp.py:FakeSock"]
     assumptions = ["socket.close() releases the descriptor; a Remoter is the only holder of its socket"]
@@ -50,6 +81,13 @@ class C11(core.Check):
             ("cli", False, [("reopen",), ("connect", errno.EINPROGRESS, None), ("connect", errno.ECONNREFUSED, None), ("connect", 0, None), ("reopen",), ("close",)]),
             ("cli", True, [("connect", 0, ("f", W)), ("connect", 0, ("f", errno.ECONNRESET)), ("connect", 0, ("ok",)), ("reopen",), ("close",)]),
             ("cli", True, [("reopen",), ("connect", 0, ("f", 1010)), ("connect", 0, None), ("close",)]),
+            # auto-reconnect: retry tymer expires while the connect is still in progress / refused / accepted but handshaking
+            ("clit", False, True, 8, [("reopen",), ("connect", errno.EINPROGRESS, None), ("tick", 8), ("connect", errno.EALREADY, None), ("tick", 8), ("connect", errno.ECONNREFUSED, None), ("connect", 0, None), ("close",)]),
+            ("clit", True, True, 2, [("connect", 0, ("f", W)), ("tick", 2), ("connect", 0, ("f", W)), ("tick", 1), ("connect", errno.EINPROGRESS, None), ("tick", 1), ("connect", errno.EALREADY, None), ("close",)]),
+            ("clit", False, False, 8, [("connect", errno.EINPROGRESS, None), ("tick", 9), ("connect", errno.EALREADY, None), ("close",)]),
+            ("realcli", False, "hang", 2, [("svc",), ("tick", 2), ("svc",), ("tick", 2), ("svc",), ("close",)]),
+            ("realcli", False, "refused", 2, [("svc",), ("tick", 2), ("svc",), ("svc",), ("close",)]),
+            ("realcli", True, "mute", 2, [("svc",), ("svc",), ("tick", 2), ("svc",), ("tick", 3), ("svc",), ("close",)]),
         ]
 
     def exhaustive(self, tier):
@@ -83,51 +121,52 @@ class C11(core.Check):
                 else:
                     ops.append(("reopen",))
             yield ("real", rng.random() < 0.5, ops)
+        for _ in range(8 if tier == "quick" else 200):
+            tmo = rng.choice([1, 2, 8])
+            ops = []
+            for _ in range(rng.randrange(2, 14)):
+                r = rng.random()
+                ops.append(("tick", rng.choice([0, 1, tmo, tmo, tmo + 1])) if r < 0.4 else ("svc",) if r < 0.85 else ("reopen",) if r < 0.93 else ("close",))
+            yield ("realcli", rng.random() < 0.4, rng.choice(["refused", "hang", "mute"]), tmo, ops + [("close",)])
         for _ in range(n):
             if rng.random() < 0.7:
                 tls = rng.random() < 0.55
                 yield ("srv", tls, T.gen_server_ops(rng, tls, "life", tier))
             else:
                 tls = rng.random() < 0.5
-                ops = []
-                for _ in range(rng.randrange(1, 12)):
-                    r = rng.random()
-                    if r < 0.2:
-                        ops.append(("reopen",))
-                    elif r < 0.3:
-                        ops.append(("close",))
-                    else:
-                        hs = None
-                        if tls and rng.random() < 0.8:
-                            hs = rng.choice([("ok",), ("f", T.WANT_READ), ("f", T.WANT_WRITE), ("f", rng.choice(T.conn_fault_codes("clienttls") + [errno.ECONNABORTED])),
-                                             ("f", rng.choice(T.ALL_CODES))])
-                        ops.append(("connect", rng.choice(RCS), hs))
-                if rng.random() < 0.7:
-                    ops.append(("close",))
-                yield ("cli", tls, ops)
+                if rng.random() < 0.35:
+                    yield ("cli", tls, _gen_cli_ops(rng, tls, None))
+                else:   # auto-reconnecting client in virtual tyme: the retry tymer expires before / after accept, mid-handshake ...
+                    tmo = rng.choice([0, 1, 2, 8, 8])
+                    yield ("clit", tls, rng.random() < 0.85, tmo, _gen_cli_ops(rng, tls, tmo))
 
     def request(self, case):
         if case[0] == "real":
             return ("noop",)
         if case[0] == "srv":
             return ("server", bool(case[1]), T.request_server(case[2]))
+        if case[0] == "realcli":
+            return ("noop",)
+        tls, recon, tmo, cops = _cli_parts(case)
         ops = []
-        for op in case[2]:
+        for op in cops:
             if op[0] == "connect":
                 ops.append(("connect", op[1], tuple(op[2]) if op[2] is not None else None))
             else:
                 ops.append(tuple(op))
-        return ("cli", bool(case[1]), ops)
+        return ("cli", bool(tls), bool(recon), tmo, ops)
 
     def run_impl(self, case):
         if case[0] == "real":
             return T.run_real_life(case)
         if case[0] == "srv":
             return T.run_server((case[1], case[2]))
-        return T.run_client((case[1], case[2]))
+        if case[0] == "realcli":
+            return T.run_real_client(case)
+        return T.run_client(_cli_parts(case))
 
     def compare_view(self, case, obs):
-        if case[0] == "real":
+        if case[0] in ("real", "realcli"):
             return "noop"
         if case[0] == "srv":
             return sx.dumps(T.strip_hard(obs))
@@ -160,7 +199,12 @@ class C11(core.Check):
                         if not closed:
                             bad.append("open-after-reopen:" + e[0])
             return sorted(set(bad))
-        for op, (st, open_ids, cur, connected) in zip(case[2], obs):
+        if case[0] == "realcli":
+            for op, (st, nheld, stray) in zip(case[4], obs):
+                if stray:
+                    bad.append("client-earlier-socket-open")
+            return sorted(set(bad))
+        for op, (st, open_ids, cur, connected) in zip(_cli_parts(case)[3], obs):
             extra = [i for i in open_ids if i != cur]
             if extra:
                 bad.append("client-earlier-socket-open")
@@ -171,7 +215,9 @@ class C11(core.Check):
     def nontrivial(self, case, obs):
         if case[0] == "real":
             return obs[-2][0] >= 3
-        if case[0] == "cli":
+        if case[0] == "realcli":
+            return obs[-1][1] >= 3
+        if case[0] in ("cli", "clit"):
             return len({o[2] for o in obs}) >= 3
         st0, steps = obs
         if not steps:
@@ -186,6 +232,11 @@ class C11(core.Check):
 
     def features(self, case, obs):
         f = [case[0], "tls" if case[1] else "plain"]
+        if case[0] == "realcli":
+            return f + ["realcli:" + case[2], "realcli-sockets:%d" % min(8, obs[-1][1])]
+        if case[0] == "clit":
+            f.append("reconnectable" if case[2] else "not-reconnectable")
+            f.append("tymeout:%d" % case[3])
         if case[0] == "real":
             return f + ["real-sockets:%d" % min(12, obs[-2][0])]
         if case[0] == "srv":
@@ -217,6 +268,14 @@ class C11(core.Check):
         return f
 
     def shrink(self, case):
+        if case[0] in ("clit", "realcli"):
+            head, ops = case[:4], case[4]
+            for i in range(len(ops)):
+                yield head + (ops[:i] + ops[i + 1:],)
+            for i, o in enumerate(ops):
+                if o[0] == "tick" and o[1] > 0:
+                    yield head + (ops[:i] + [("tick", o[1] - 1)] + ops[i + 1:],)
+            return
         k, tls, ops = case
         for i in range(len(ops)):
             if k in ("srv",) and i == len(ops) - 1:
@@ -233,7 +292,8 @@ class C11(core.Check):
 
     def mutate(self, rng, case):
         out = list(self.shrink(case))[:40]
-        out.append((case[0], not case[1], case[2]))
+        if case[0] in ("srv", "cli"):
+            out.append((case[0], not case[1], case[2]))
         return out
 
 
